@@ -281,6 +281,9 @@ class SymFP(Sym):
             return self
         if ut is not UINT[self.t]:
             raise Unsupported("view(%r) of %r" % (ut, self.t))
+        if z3.is_app(self.e) and self.e.decl().kind() == z3.Z3_OP_FPA_TO_FP and self.e.num_args() == 1 and z3.is_bv(self.e.arg(0)):
+            # the float was built from a bit pattern: its view is that pattern (NumPy keeps the bits, NaN payloads included)
+            return SymBV(self.e.arg(0), ut)
         return SymBV(z3.fpToIEEEBV(self.e), ut)
 
     def astype(self, t):
@@ -494,6 +497,14 @@ class SymInt(Sym):
         return self._ar(o, lambda a, b: a - b, [z3.BVSubNoOverflow, lambda a, b: z3.BVSubNoUnderflow(a, b, True)], True)
 
     def __mul__(self, o):
+        if isinstance(o, (int, numpy.integer)) and not isinstance(o, bool):
+            o = int(o)
+            if o in (1, -1):
+                return self if o == 1 else -self
+            if o != 0 and abs(o) & (abs(o) - 1) == 0:
+                # a power of two: a constant shift (cheap at any width), then the sign
+                r = self << (abs(o).bit_length() - 1)
+                return r if o > 0 else -r
         return self._ar(o, lambda a, b: a * b, [lambda a, b: z3.BVMulNoOverflow(a, b, True), z3.BVMulNoUnderflow])
 
     def __rmul__(self, o):
@@ -841,6 +852,9 @@ def _int(x=0, *a):
     if isinstance(x, SymInt):
         return x
     if isinstance(x, SymBV):
+        c = z3.simplify(x.e)
+        if z3.is_bv_value(c):
+            return c.as_long()  # constant folding: the operand does not depend on any input
         return SymInt(z3.ZeroExt(eng().W - x.n, x.e))
     if isinstance(x, SymBool):
         W = eng().W
